@@ -130,7 +130,10 @@ def smoothed_projection(
     # need smoothings doesn't actually matter, since all our computations our
     # purely element-wise (no spatial locality) and those pixels will instead
     # rely on the standard projection. So just use 1, since it's well behaved.
-    nonzero_norm = jnp.abs(rho_filtered_grad_helper) > 0
+    # Squared norms inside the underflow range of the dtype count as zero as well: the backward pass divides by
+    # norm**2, which overflows there (float32: norm**2 ~ 1e-37) and turns the gradient into NaN.
+    norm_floor = jnp.sqrt(jnp.finfo(rho_filtered_grad_helper.dtype).tiny)
+    nonzero_norm = jnp.abs(rho_filtered_grad_helper) > norm_floor
 
     rho_filtered_grad_norm = jnp.sqrt(jnp.where(nonzero_norm, rho_filtered_grad_helper, 1))
     rho_filtered_grad_norm_eff = jnp.where(nonzero_norm, rho_filtered_grad_norm, 1)
